@@ -3,27 +3,29 @@
    regenerated from the source on every run and says which repairs the code contains
    (name check in NodeStreamer::next, exists flag after a removed clash, sparse guard).
 
-   FULL STATEMENT NOT PROVED (kept here; see NOTES.md, gap G1):
+   restore_exact: PROVED for every destination that holds nothing at a snapshot path (fresh
+   destination, or any extras) — restore_exact_fresh_dest below, all trees / options / worlds —
+   via the four lemmas merge_walk_extras_only, add_file_plan_correct_fresh,
+   restore_contents_writes_plan_fresh, metadata_pass_exact.  STILL OPEN (NOTES.md, gap G1'):
+   destinations with entries AT snapshot paths (identical / modified / shorter / longer files of
+   the same type, and other types with delete):
 
-     Theorem restore_exact : forall o droot roots s,
-       dirs_ok droot s -> tree_shaped droot s -> sorted_unique_normal roots ->
-       index_consistent roots -> SameTypeOrDelete o droot roots s ->
+     Theorem restore_exact : forall o droot roots nodes s,
+       stream code_cfg roots = map toO nodes -> nodes_ok nodes -> nodes_sorted nodes ->
+       dirs_ok droot s -> tree_shaped droot s -> SameTypeOrDelete o droot nodes s ->
        let r := restore code_cfg o droot roots s in
        r_out r = OOk /\
-       (forall p it, In (Some (p, it)) (stream code_cfg roots) ->
-          unconstrained o s p it \/ holds_item (r_fs r) (dpath droot p) it) /\
-       (forall q e, strictly_under droot q = true -> fs_get s q = Some e -> ~ snapshot_path roots q ->
+       (forall x, In x nodes -> unconstrained o s x \/ good droot (r_fs r) x) /\
+       (forall q e, strictly_under droot q = true -> fs_get s q = Some e -> ~ nodepath droot nodes q ->
           if o_delete o then fs_get (r_fs r) q = None else fs_get (r_fs r) q = Some e).
 
      where unconstrained = "same size and mtime, other bytes, verify_existing off" (the
-     property's own exclusion).  Proved instead: the instance below (restore_exact_instance_partial,
-     every option combination on a destination with identical / modified / shorter / longer /
-     missing / extra entries and shared blobs), confinement and the read/plan inclusion for all
-     inputs, and the refutations of the classes excluded by SameTypeOrDelete.  The executable
-     form of the statement is evaluated by the check on every generated case, on the model and
-     on the real code. *)
+     property's own exclusion).  For that case: the worked instance restore_exact_instance_partial
+     (every option combination on a destination with identical / modified / shorter / longer /
+     missing / extra entries and shared blobs); the executable form of the statement is evaluated
+     by the check on every generated case, on the model and on the real code. *)
 From Verif.Base Require Import Tactics.
-From Verif.C14 Require Import Model Extracted Witness Proofs Proofs2 Proofs3.
+From Verif.C14 Require Import Model Extracted Witness Proofs Proofs2 Proofs3 Exact1 Exact2 Exact3 Exact4 Exact5 Exact6.
 Local Open Scope N_scope.
 
 (* No path outside the destination — nor the destination root itself — is created, modified or
@@ -119,3 +121,76 @@ Theorem restore_exact_instance_partial : forall verify sparse,
    absent (r_fs (restore code_cfg (mkO true verify sparse) droot0 snapX worldX)) extras).
 Proof. exact restore_exact_instance. Qed.
 Print Assumptions restore_exact_instance_partial.
+
+(* ================================================================ restore_exact (gap G1) *)
+Local Close Scope N_scope.
+
+(* (a) The merge-walk of collect_and_prepare when no destination entry stands at a snapshot path:
+   from any point of the walk (nodes = done ++ rem, remaining walker entries dst all extras, the
+   invariant KInv: done directories exist, nothing at file/symlink paths, plan correct for the
+   files of done) it ends Ok with the invariant for all nodes; every walker entry is classified
+   as extra (removed iff delete — Estep), every node is visited once, in order. *)
+Theorem merge_walk_extras_only : forall o droot nodes c,
+  NoDup (map fst nodes) -> (forall x, In x nodes -> fst x <> []) ->
+  (forall x j, In x nodes -> 0 < j < length (fst x) -> exists mt mo, In (firstn j (fst x), IDir mt mo) nodes) ->
+  consistent (files_of nodes) ->
+  forall fuel done rem s pl dst,
+  nodes = done ++ rem -> length dst + length rem < fuel -> KInv droot nodes done s pl ->
+  (forall d, In d dst -> extra_entry droot nodes d) ->
+  exists s1 pl1, collect c fuel o droot s pl dst (map toO rem) = (OOk, s1, pl1) /\
+    KInv droot nodes nodes s1 pl1 /\ Estep o droot nodes s dst s1 [].
+Proof. exact collect_fresh. Qed.
+Print Assumptions merge_walk_extras_only.
+
+(* (b) RestorePlan::add_file for a file that is not in the destination keeps the plan invariant:
+   names / lengths / preexisting flags in file order, every location of the plan is a blob of its
+   file at the blob's offset with the blob's bytes, every blob of every file has a location. *)
+Theorem add_file_plan_correct_fresh : forall o droot s pl files l blobs size mt,
+  PlanInv pl files -> consistent (files ++ [(l, blobs)]) -> fs_get s (droot ++ l) = None ->
+  PlanInv (add_file o droot s pl (np l) blobs size mt) (files ++ [(l, blobs)]).
+Proof. exact add_file_fresh. Qed.
+Print Assumptions add_file_plan_correct_fresh.
+
+(* (c) restore_contents executes such a plan: Ok; every planned file holds exactly the
+   concatenation of its blobs (set_length once, write_at per location in the plan's (pack,
+   location) order, a location shared by several files written to each, the hole of an all-zero
+   blob left only in the file just allocated — any sparse setting); nothing else changes. *)
+Theorem restore_contents_writes_plan_fresh : forall c o droot files s0,
+  files_ok files -> forall pl, PlanInv pl files -> dirs_ok droot s0 -> parents_ok droot files s0 ->
+  (forall f, In f files -> fs_get s0 (P droot f) = None) ->
+  exists s' reads, restore_contents c o droot s0 pl = (OOk, s', reads) /\ dirs_ok droot s' /\
+    (forall f, In f files -> exists mt mo, fs_get s' (P droot f) = Some (EFile (econt (snd f)) mt mo)) /\
+    (forall q, (forall f, In f files -> q <> P droot f) -> fs_get s' q = fs_get s0 q).
+Proof. exact restore_contents_fresh. Qed.
+Print Assumptions restore_contents_writes_plan_fresh.
+
+(* (d) the metadata pass (directory stack included): from "content in place" to the snapshot's
+   type / target / mode / mtime at every node; nothing else changes. *)
+Theorem metadata_pass_exact_thm : forall droot all,
+  NoDup (map fst all) -> (forall x, In x all -> fst x <> []) -> forall s, all_pend droot all s ->
+  (forall x, In x all -> good droot (meta_loop droot s [] (map toO all)) x) /\
+  (forall q, (forall x, In x all -> q <> Pn droot x) -> fs_get (meta_loop droot s [] (map toO all)) q = fs_get s q).
+Proof. exact metadata_pass_exact. Qed.
+Print Assumptions metadata_pass_exact_thm.
+
+(* restore_exact for every destination without an entry at a snapshot path: for every option
+   record (delete, verify_existing, sparse), every destination root whose ancestors are
+   directories, every tree whose node stream is `nodes` (nodes_ok: unique non-empty paths, proper
+   prefixes are directory nodes, one byte string per (pack, location)) and every world: the
+   restore ends Ok, every snapshot path holds exactly the snapshot's bytes / type / link target /
+   mode / mtime, and every other entry below the root is removed iff delete and otherwise
+   untouched. *)
+Theorem restore_exact_fresh_dest : forall o droot roots nodes s,
+  stream code_cfg roots = map toO nodes -> nodes_ok nodes -> dirs_ok droot s ->
+  (forall x, In x nodes -> fs_get s (Pn droot x) = None) ->
+  r_out (restore code_cfg o droot roots s) = OOk /\
+  (forall x, In x nodes -> good droot (r_fs (restore code_cfg o droot roots s)) x) /\
+  (forall q e, strictly_under droot q = true -> fs_get s q = Some e ->
+     if o_delete o then fs_get (r_fs (restore code_cfg o droot roots s)) q = None
+     else fs_get (r_fs (restore code_cfg o droot roots s)) q = Some e).
+Proof. exact restore_exact_fresh_dest_code. Qed.
+Print Assumptions restore_exact_fresh_dest.
+Example restore_exact_fresh_dest_hyps :
+  stream code_cfg snapY = map toO nodesY /\ nodes_ok nodesY /\ dirs_ok droot0 worldY /\
+  (forall x, In x nodesY -> fs_get worldY (Pn droot0 x) = None).
+Proof. exact exampleY_hyps. Qed.
